@@ -440,7 +440,27 @@ _ADDED9 = {
     "C19": " (MU1) see C04: an expression node of the model is reordered in place only by the back end that internal/cmd runs last.",
     "C17": " (PX1) see C01; (S1) registered here too: the guard under which the Python/C++ writers print the end-of-stream marker of the previous stream step is the reference one.",
 }
-for _src in (_ADDED, _ADDED3, _ADDED4, _ADDED5, _ADDED6, _ADDED7, _ADDED8, _ADDED9):
+# Clauses added after the tenth round of independently seeded changes and the fifth refactoring campaign.
+_ADDED10 = {
+    "C01": " (PL2) a count written in front of a loop over S is len(S) (the dimension count of a dynamic array excludes the element's own dimensions).",
+    "C02": " (O4) a printed C++ to_json that adds members to `j` conditionally first gives `j` its container kind.",
+    "C03": " (PL2) see C01; (O4) see C02; (SR4, NL1) registered here too.",
+    "C04": " (V3, V4) the rewriter's case and child coverage registered here too (a node kind treated as a leaf keeps its comments in the embedded schema).",
+    "C05": " (V5) registered here too for the schema walk; (BN2) see C06.",
+    "C06": " (BN2) every (*big.Int).Uint64()/Int64() follows a test of the same value's size (fix 800278c); (X1) registered here too: every listed version is parsed and validated on its own.",
+    "C07": " (S2, extended) in a generated write method nothing returns between the state check and the assignment that records the step.",
+    "C08": " (V1-V4) visitor and rewriter coverage registered here too.",
+    "C09": " (P6c) every yaml Decode of a model file stands in a loop (multi-document files); (BN2) see C06; (P6b) registered here too.",
+    "C10": " (BN2) see C06.",
+    "C11": " (I4) start value, step and rejecting test of the import depth counter, evaluated for nesting levels 0,1,2,…, reject exactly level MaxImportRecursionDepth, and the test is a top-level statement; "
+           "(P6c) see C09; (I1, L3) registered here too.",
+    "C12": " (T3, T3b) registered here too: the working directory is restored on every path.",
+    "C13": " (P6c) see C09; (BN2) see C06 — the expanded `length:` of a vector is not narrowed silently while the shorthand is rejected; (O1) registered here too.",
+    "C14": " (PL2) see C01.",
+    "C15": " (V3, V4) see C04.",
+    "C18": " (I4) see C11.",
+}
+for _src in (_ADDED, _ADDED3, _ADDED4, _ADDED5, _ADDED6, _ADDED7, _ADDED8, _ADDED9, _ADDED10):
     for _k, _v in _src.items():
         if _k in PROPS:
             PROPS[_k]["explanation"] += _v
